@@ -112,6 +112,7 @@ struct World {
     fin_seen: [std::collections::BTreeSet<(usize, usize)>; 2], // (e) handles whose peer's Finish reached e's task while it was running or winding down after a LOCAL drop
     delivered_bytes: HashMap<(usize, usize), Vec<u8>>, // payloads of the Push frames that reached e's task for the stream of handle h, in order
     delivered_unsure: std::collections::BTreeSet<(usize, usize)>,
+    closed_by_task: std::collections::BTreeSet<(usize, usize)>, // streams the connection task has certainly closed (a Reset of the peer processed, the task finished)
     free_ids: [std::collections::HashSet<u32>; 2],   // flow ids an endpoint has certainly let go of (and not taken up again)
     bind_ids: [std::collections::HashSet<u32>; 2],   // flow ids under which an endpoint has a bind request out
     port_handle: HashMap<u64, [Option<usize>; 2]>,
@@ -262,6 +263,7 @@ impl World {
             fin_seen: [std::collections::BTreeSet::new(), std::collections::BTreeSet::new()],
             delivered_bytes: HashMap::new(),
             delivered_unsure: std::collections::BTreeSet::new(),
+            closed_by_task: std::collections::BTreeSet::new(),
             free_ids: [std::collections::HashSet::new(), std::collections::HashSet::new()],
             bind_ids: [std::collections::HashSet::new(), std::collections::HashSet::new()],
             port_handle: HashMap::new(),
@@ -436,6 +438,26 @@ impl World {
                     NAMES[e], t[1], out.split(" | ").next().unwrap_or(""));
                 self.fail("C12", "lost-wakeup", msg.clone());
                 self.fail(if ended { "C08" } else { "C04" }, "lost-wakeup", msg);
+            }
+        }
+        // C12: a writer that was parked when ANOTHER holder of the stream shut its write side down still
+        // sleeps (`do_shutdown` wakes nobody); when the connection task then closes the flow — the peer's Reset
+        // is processed, or the connection ends — it wakes that writer, whoever set the closed flag first.
+        if t[0] == "deliver" || t[0] == "dropmux" {
+            let reset_for: Option<u32> = if t[0] == "deliver" && t.get(1) == Some(&"bin") { t.get(2).and_then(|h| parse_frame(h)).filter(|f| f.0 == 2 && frame_valid(t[2])).map(|f| f.1) } else { None };
+            let exited_now = out.split(" | ").nth(1).is_some_and(|evs| evs.split("; ").any(|ev| ev.starts_with("exit ")));
+            for h in 0..self.view[e].handles.len() {
+                let Some(woken) = self.sims[e].shut_while_parked_woken(h) else { continue };
+                let this_flow = reset_for.is_some_and(|id| self.fid_port.get(&id).and_then(|p| self.port_handle.get(p)).and_then(|ent| ent[e]) == Some(h)) && !self.any_reuse;
+                let held_up = self.backlog[e][0] >= self.opts[e].accept_cap || (self.opts[e].bind_cap > 0 && self.backlog[e][1] >= self.opts[e].bind_cap);
+                if (this_flow && !held_up && !self.sink_blocked[e]) || exited_now {
+                    *self.mon.entry("writer-parked-across-shutdown/judged").or_insert(0) += 1;
+                    if !woken && !self.closed_by_task.contains(&(e, h)) {
+                        let msg = format!("the writer of stream {}#{h} was parked for credit when the write side was shut down through another handle; the connection task has now closed the flow (`{}`) and did not wake it: it sleeps for ever although its write can only fail", NAMES[e], t.join(" ").chars().take(60).collect::<String>());
+                        self.fail("C12", "parked-writer-not-woken-by-close", msg);
+                    }
+                    self.closed_by_task.insert((e, h));
+                }
             }
         }
         // … and such a poll is made after every stimulus that lets the connection task run
@@ -2120,6 +2142,54 @@ fn backlog_at_end_case(r: &mut Rng, focus: Focus) -> World {
     w
 }
 
+/// C12: a writer parked for credit, the write side shut down through another handle to the stream
+/// (`do_shutdown` takes `&self` and wakes nobody), then the connection task closes the flow — the peer resets
+/// the stream, the connection ends, the Multiplexor is dropped: the parked writer is woken by that close.
+fn foreign_shutdown_case(r: &mut Rng, focus: Focus) -> World {
+    let mut opts = [gen_opts(r, focus), gen_opts(r, focus)];
+    let e = r.below(2) as usize; // the writing endpoint
+    let pe = 1 - e;
+    opts[pe].rwnd = *r.pick(&[1u32, 1, 2, 3]);
+    let mut w = World::new(opts);
+    for k in 0..2 {
+        let mut t = vec![s("rng")];
+        t.extend((0..8).map(|_| s(r.range(1, 0xffff_ffff))));
+        w.stim(k, &t);
+        w.view[k].rng_left = 8;
+    }
+    let oe = r.below(2) as usize;
+    let req = w.next_req; w.next_req += 1; w.view[oe].rng_left -= 1;
+    w.stim(oe, &[s("open"), s(req), hexd(&r.bytes(2)), s(1000 + req)]);
+    for _ in 0..3 { while w.deliver_next(1 - oe) {} while w.deliver_next(oe) {} }
+    w.stim(1 - oe, &[s("accept")]);
+    if w.view[0].handles.is_empty() || w.view[1].handles.is_empty() { fair_completion(&mut w, 10); final_checks(&mut w); return w; }
+    // write until the window is used up and the writer parks
+    let op = if r.chance(1, 2) { "wpush" } else { "write" };
+    let mut parked = false;
+    for k in 0..6u8 {
+        let out = w.stim(e, &[s(op), s(0), hexd(&[0x30 + k, 0x31])]);
+        if out.starts_with("pending") { parked = true; break; }
+        if r.chance(1, 3) { w.deliver_next(pe); }
+    }
+    if parked {
+        // another holder of the stream shuts the write side down
+        w.stim(e, &[s("shutdown"), s(0)]);
+        if r.chance(1, 2) { while w.deliver_next(pe) {} }
+        match r.below(4) {
+            0 | 1 => {
+                // the peer's application lets go of the stream without finishing: its endpoint resets the flow
+                w.stim(pe, &[s("dropstream"), s(0)]);
+                while w.deliver_next(e) {}
+            }
+            2 => { w.stim(e, &[s("deliver"), s(*r.pick(&["close", "err", "eof"]))]); }
+            _ => { if w.sims[e].pending_futures() == 0 { w.stim(e, &[s("dropmux")]); while w.deliver_next(pe) {} while w.deliver_next(e) {} } }
+        }
+    }
+    fair_completion(&mut w, 20);
+    final_checks(&mut w);
+    w
+}
+
 /// One write of more than 1 MiB (up to 3.5 MiB) on a stream whose reader grants a window of 2–4
 /// frames, possibly after small writes that have used part of the window, with deliveries, large reads
 /// and retries of a pending write in random order; then a clean shutdown and the completion phase.
@@ -3414,6 +3484,18 @@ fn main() {
             let mut r = base.fork(k);
             match catch(|| reopen_same_id_case(&mut r, focus)) {
                 Ok(w) => handle_world(w, "reopen-same-id", &mut rep, &mut drv),
+                Err(p) => rep.fail(FailKind::Impl, "harness-panic", &format!("panic outside a stimulus: {p}"), json!({})),
+            }
+        }
+    }
+    // a writer parked across a shutdown through another handle, then the close by the connection task
+    if matches!(focus, Focus::C12) {
+        let n = match args.tier { Tier::Quick => 60, Tier::Thorough => 1500 };
+        let base = Rng::new(args.seed ^ fnv(focus.name().as_bytes()) ^ 0x666f_7265_6967);
+        for k in 0..n {
+            let mut r = base.fork(k);
+            match catch(|| foreign_shutdown_case(&mut r, focus)) {
+                Ok(w) => handle_world(w, "foreign-shutdown", &mut rep, &mut drv),
                 Err(p) => rep.fail(FailKind::Impl, "harness-panic", &format!("panic outside a stimulus: {p}"), json!({})),
             }
         }
